@@ -2,9 +2,11 @@ package main
 
 import (
 	"bytes"
+	"compress/gzip"
 	"context"
 	"fmt"
 	"io"
+	"net"
 	"net/http"
 	"strings"
 	"sync"
@@ -46,6 +48,7 @@ func c15cSetup() *c15cEnv {
 		{Name: "Client", In: msg, Out: msg, ClientStream: true, Rule: &dynRule{Verb: "POST", Tmpl: "/c15/client", Body: "*"}},
 		{Name: "Server", In: msg, Out: msg, ServerStream: true, Rule: &dynRule{Verb: "GET", Tmpl: "/c15/server"}},
 		{Name: "Bidi", In: msg, Out: msg, ClientStream: true, ServerStream: true},
+		{Name: "Post", In: msg, Out: msg, Rule: &dynRule{Verb: "POST", Tmpl: "/c15/post", Body: "*"}},
 	}}}}
 	fd, err := f.build()
 	if err != nil {
@@ -206,6 +209,22 @@ func c15cRun(o *out, input string) {
 				rsp.Body.Close()
 			}
 		}()
+	case "httpz":
+		// plain HTTP/1.1, the body gzip-compressed (Content-Encoding) and chunked, its terminating chunk in a write of its
+		// own; the client goes away while the handler runs
+		conn, err := net.Dial("tcp", strings.TrimPrefix(e.lb.url, "http://"))
+		if err != nil {
+			o.emit(input, "client-error 0")
+			return
+		}
+		var z bytes.Buffer
+		zw := gzip.NewWriter(&z)
+		zw.Write([]byte(`{"text":"a"}`))
+		zw.Close()
+		fmt.Fprintf(conn, "POST /c15/post HTTP/1.1\r\nHost: verif\r\nContent-Type: application/json\r\nContent-Encoding: gzip\r\nTransfer-Encoding: chunked\r\n\r\n%x\r\n%s\r\n", z.Len(), z.Bytes())
+		time.Sleep(40 * time.Millisecond)
+		fmt.Fprint(conn, "0\r\n\r\n")
+		go func() { <-ctx.Done(); conn.Close() }()
 	case "http":
 		path := map[string]string{"unary": "/c15/unary", "client": "/c15/client", "server": "/c15/server"}[shape]
 		var body io.Reader
@@ -259,7 +278,7 @@ func c15cGen(o *out) {
 		// "http client ctx" is not a scenario: net/http does not watch an HTTP/1 connection whose
 		// request body is unread, so the context is not cancelled until the handler reads
 		"http unary ctx", "http client recv", "http server ctx", "http server send",
-		"web unary ctx", "web server ctx", "web server send",
+		"web unary ctx", "web server ctx", "web server send", "httpz unary ctx", "httpz+s unary ctx",
 		// the same behind a stats handler (whose TagRPC derives a context) and interceptors
 		"grpc+s unary ctx", "grpc+s bidi recv", "grpc+s server send", "http+s unary ctx", "http+s client recv", "http+s server ctx", "http+s server send",
 		"web+s unary ctx", "web+s server ctx",
